@@ -192,6 +192,8 @@ def _guarded_on_assume(ctx, sh, acc, guard):
         prev = table.get(xs.get_id())
         table[xs.get_id()] = fact if prev is None else (lambda v, _a=prev, _b=fact: z3.And(_a(v), _b(v)))
         ctx.__dict__.setdefault("keepalive", []).append(xs)
+        # lookup lemma (valid by induction on the association list): a value found under a key satisfies the value shape
+        ctx.__dict__.setdefault("dict_value_shapes", {}).setdefault(xs.get_id(), []).append((g, sh))
     elif isinstance(sh, OneOf):
         for a in sh.alts:
             _guarded_on_assume(ctx, a, acc, guard)
